@@ -1,3 +1,163 @@
 import FiberModel.DriverUtil
--- stub driver for C09; replaced when the property's model lands
-def main : IO Unit := pure ()
+import FiberModel.C09.Spec
+/-
+Driver for C09. Case fields (after the id):
+  kind(a|c|e|l|f|p)  ast  header(hex)  offers(hexlist)  mimes(hexlist pairs)  qtab(hexlist pairs)  implObs
+-/
+open B DriverUtil C09
+
+/-! ### decoding -/
+
+def hexStr (s : String) : Option Bytes := if s == "" then none else fromHex s
+
+def decodeParam (s : String) : Option Param :=
+  match s.splitOn "+" with
+  | [o1, o2, n, k, v] => do
+    let o1 ← hexStr o1; let o2 ← hexStr o2; let n ← hexStr n; let v ← hexStr v
+    if k == "t" then some { ows1 := o1, ows2 := o2, name := n, quoted := false, value := v }
+    else if k == "q" then some { ows1 := o1, ows2 := o2, name := n, quoted := true, value := v }
+    else none
+  | _ => none
+
+def decodeElem (s : String) : Option Elem :=
+  match s.splitOn ":" with
+  | [l, r, ps, t] => do
+    let l ← hexStr l; let r ← hexStr r; let t ← hexStr t
+    let ps ← if ps == "-" then some [] else (ps.splitOn "/").mapM decodeParam
+    some { lead := l, rng := r, params := ps, trail := t }
+  | _ => none
+
+def decodeAST (s : String) : Option (List Elem) :=
+  if s == "e" then some [] else (s.splitOn "|").mapM decodeElem
+
+def pairs : List Bytes → Option (List (Bytes × Bytes))
+  | [] => some []
+  | [_] => none
+  | k :: v :: rest => (pairs rest).map ((k, v) :: ·)
+
+/-- decimal text of a float64 as printed by `strconv.FormatFloat(q, 'f', -1, 64)` -/
+def decimalVerdict (s : Bytes) : Option Qual :=
+  let s := if s.head? == some 45 then s.drop 1 else s
+  let ip := s.takeWhile isDigit
+  match s.drop ip.length with
+  | [] => if ip.isEmpty then none else some (.fin (digitsVal ip) 0)
+  | 46 :: fr => if fr.all isDigit && !fr.isEmpty then some (.fin (digitsVal (ip ++ fr)) fr.length) else none
+  | _ => none
+
+def verdict (v : Bytes) : Option (Option Qual) :=
+  if v == b "err" then some none
+  else if v == b "inf" then some (some .inf)
+  else if v == b "nan" then some (some .nan)
+  else (decimalVerdict v).map some
+
+/-! ### which texts the model will hand to `ParseUfloat` (to detect a table miss) -/
+
+def elemQueries (accept : Bytes) : List Bytes :=
+  match splitSemi accept with
+  | none => []
+  | some (_, rest) =>
+    if hasPrefix rest (b ";q=") && !(rest.drop 3).contains 59 then [trimRightOWS (rest.drop 3)]
+    else match (visitParams rest).find? (fun p => isQKey p.1) with
+      | some p => [p.2]
+      | none => []
+
+def queries (header : Bytes) : List Bytes := (mediaRanges header).flatMap elemQueries
+
+/-! ### observations -/
+
+def renderFormat (o : FormatObs) : String :=
+  let h := match o.handler with | some i => toString i | none => "-1"
+  s!"h={h};st={o.status};ct={toHexField o.ctype};vary={toHexField o.vary};err={if o.err then 1 else 0}"
+
+def parseFormat (s : String) : Option FormatObs := do
+  let kv := (s.splitOn ";").filterMap fun p => match p.splitOn "=" with
+    | [k, v] => some (k, v) | _ => none
+  let get (k : String) : Option String := (kv.find? (·.1 == k)).map (·.2)
+  let h ← (get "h").bind String.toInt?
+  let st ← (get "st").bind String.toNat?
+  let ct ← (get "ct").bind fromHex
+  let vary ← (get "vary").bind fromHex
+  let err ← get "err"
+  if h < -1 then none   -- more than one handler ran
+  else some { handler := if h < 0 then none else some h.toNat, status := st, ctype := ct, vary := vary, err := err == "1" }
+
+def tcharTable : Bytes := (List.range 256).map fun c => if tchar c then 49 else 48
+
+def bool01 (x : Bool) : String := if x then "1" else "0"
+
+def handleCase (f : List String) : Except String Verdict := do
+  match f with
+  | [id, kind, ast, header, offers, mimes, qtab, impl] =>
+    let some header := fromHex header | throw "outside-domain: header"
+    if kind == "p" then
+      -- probe: fasthttp's token-byte table against the model's `tchar`
+      return { id := id, modelObs := if header == tcharTable then "probe" else "probe-tchar-differs", implObs := impl,
+               spec := none, tags := ["probe"] }
+    let some offers := hexList offers | throw "outside-domain: offers"
+    let some mimes := (hexList mimes).bind pairs | throw "outside-domain: mimes"
+    let some qtabL := (hexList qtab).bind pairs | throw "outside-domain: qtab"
+    let some qtabV := qtabL.mapM (fun (k, v) => (verdict v).map fun x => (k, x)) | throw "outside-domain: qtab verdict"
+    let ast ← if ast == "-" then pure none else match decodeAST ast with
+      | some es => pure (some es)
+      | none => throw "outside-domain: ast"
+    if let some es := ast then
+      if render es != header then throw "outside-domain: header is not the rendering of the ast"
+    if header.any (fun c => c == 10 || c == 13 || c == 0 || c > 255) then throw "outside-domain: CR/LF/NUL in header"
+    let isMedia := kind == "a" || kind == "f"
+    if !(kind == "a" || kind == "c" || kind == "e" || kind == "l" || kind == "f") then throw "outside-domain: kind"
+    let mime : Bytes → Bytes := fun e => match mimes.find? (·.1 == e) with
+      | some p => p.2
+      | none => if e == [] then [] else b "application/octet-stream"
+    if isMedia then
+      for o in offers do
+        let m := (splitOffer o).1
+        if !m.contains 47 && o != [] && (mimes.find? (·.1 == m)).isNone then throw "outside-domain: extension offer without MIME entry"
+        if !offerOK mime o then throw "outside-domain: offer without a media type (acceptsOfferType panics)"
+    let tab : Bytes → Option Qual := fun s => match qtabV.find? (·.1 == s) with
+      | some p => p.2
+      | none => none
+    let miss := (queries header).any fun s => (parseSimple s).isNone && (qtabV.find? (·.1 == s)).isNone
+    -- tags
+    let wfAst := match ast with | some es => wf es | none => false
+    let k1 := match ast with | some es => Known.K1 es | none => false
+    let k2 := match ast with | some es => Known.K2 es | none => false
+    let astForSpec := if wfAst then ast else none
+    let known := if k1 then some "K1" else if k2 then some "K2" else none
+    let ranges := parseRanges tab header
+    let shape := if header == [] then "absent" else if ast.isNone then "raw" else if !wfAst then "nonwf"
+                 else if k1 then "k1" else if k2 then "k2" else "strict"
+    let nRanges := if ranges.length ≥ 3 then "ranges3+" else s!"ranges{ranges.length}"
+    let hasQ0 := (mediaRanges header).length > ranges.length
+    let tie := ranges.any fun r => ranges.any fun r' => r.order < r'.order && r.q.eq r'.q
+    let withParams := ranges.any fun r => r.params != []
+    let quoted := header.contains 34
+    if kind == "f" then
+      let m := format tab mime header offers
+      let implO := if impl == "panic" then none else parseFormat impl
+      if impl != "panic" && implO.isNone then throw "outside-domain: unparsable format observation"
+      let spec := specViolationFormat mime astForSpec header offers implO
+      let nt := if wfAst && header != [] && offers.length ≥ 2 && ranges.length ≥ 2 then ["nt-format"] else []
+      let tags := ["format", shape, nRanges] ++ nt ++ (if m.status == 406 then ["f406"] else []) ++
+        (if miss then ["outside-model"] else [])
+      return { id := id, modelObs := if miss then impl else renderFormat m, implObs := impl, spec := spec,
+               known := if spec.isSome then known else none, tags := tags }
+    else
+      let k : Kind := if isMedia then .accept else .token
+      let acc : Bytes → Bytes → Params → Bool := if isMedia then acceptsOfferType mime else acceptsOffer
+      let m := getOffer tab acc header offers
+      let implR : Option Bytes ← if impl == "panic" then pure none
+        else if impl.startsWith "r=" then match fromHex (impl.drop 2).toString with
+          | some r => pure (some r)
+          | none => throw "outside-domain: unparsable observation"
+        else throw "outside-domain: unparsable observation"
+      let spec := specViolationAccepts mime k astForSpec header offers implR
+      let nt := if wfAst && header != [] && offers.length ≥ 2 && ranges.length ≥ 2 then
+                  [if tie then "nt-tie" else "nt-multi"] else []
+      let tags := [if isMedia then "accept" else "token", shape, nRanges] ++ nt ++
+        (if hasQ0 then ["q0"] else []) ++ (if withParams then ["params"] else []) ++ (if quoted then ["quoted"] else []) ++
+        (if m == [] then ["none"] else ["some"]) ++ (if miss then ["outside-model"] else [])
+      return { id := id, modelObs := if miss then impl else s!"r={toHexField m}", implObs := impl, spec := spec,
+               known := if spec.isSome then known else none, tags := tags }
+  | _ => throw s!"outside-domain: expected 8 fields, got {f.length}"
+
+def main : IO Unit := run handleCase
